@@ -846,7 +846,8 @@ def run_rsa_sign(case, o: Oracle) -> None:
             o.check("provider", sp.verify_public_key(pub) is True, "verify_public_key")
             for want_enc in (None, "DER"):
                 got = sp.get_signature(msg) if want_enc is None else sp.get_signature(msg, E[want_enc])
-                o.check("provider", ref_verify(got, msg, False), "reference_rejects:%s" % want_enc)
+                o.check("provider", ref_verify(got, msg, False), "reference_rejects:%s" % want_enc,
+                        "asked for pss=%s; as PKCS#1 v1.5: %s, as PSS: %s" % (pss, pk.rsa_pkcs1v15_verify(n, e, got, msg, eff_alg), pk.rsa_pss_verify(n, e, got, msg, eff_alg)))
         o.label("provider")
     o.label("part:rsa_sign", "rsa:%d" % bits, "alg:" + (alg or "default"), "pad:" + ("pss" if pss else "pkcs1v15"))
     if prehashed:
@@ -968,7 +969,8 @@ def run_cli(case, o: Oracle) -> None:
                 if rs is not None:
                     o.check("cli_signature", pk.ecdsa_verify(c, want_pub, rs[0], rs[1], msg, eff_alg), "reference_rejects")
             elif pss:
-                o.check("cli_signature", pk.rsa_pss_verify(want_pub[0], want_pub[1], sig, msg, eff_alg, salt_len=len(pk.digest(eff_alg, b""))), "reference_rejects")
+                o.check("cli_signature", pk.rsa_pss_verify(want_pub[0], want_pub[1], sig, msg, eff_alg, salt_len=len(pk.digest(eff_alg, b""))), "reference_rejects",
+                        "-pp given; as PKCS#1 v1.5: %s" % pk.rsa_pkcs1v15_verify(want_pub[0], want_pub[1], sig, msg, eff_alg))
             else:
                 o.check("cli_signature", pk.rsa_pkcs1v15_verify(want_pub[0], want_pub[1], sig, msg, eff_alg), "reference_rejects")
             vargs = ["signature", "verify", "-k", pub_path, "-s", sig_path] + (["-a", alg] if alg else []) + (["-pp"] if pss else [])
